@@ -9,11 +9,11 @@ Inductive xeqn :=
 | XCall (q : call_eqn)                 (* (y1, .., yk) = f(args) *)
 | XArr (l r : aexpr).                  (* array equation *)
 
-Definition xfails (T : table) (decl : positive -> mshape) (q : xeqn) : bool :=
+Definition xfails (T : table) (seq_if : bool) (decl : positive -> mshape) (q : xeqn) : bool :=
   match q with
   | XBase q => tr_fails T q
   | XCall (_, f, args) =>
-      match tr_func T f, tr_exprs T args with Ok _, Ok _ => false | _, _ => true end
+      match tr_func T seq_if f, tr_exprs T args with Ok _, Ok _ => false | _, _ => true end
   | XArr l r => match tr_aeq decl T l r with Ok _ => false | Err _ => true end
   end.
 
@@ -21,7 +21,7 @@ Definition xfails (T : table) (decl : positive -> mshape) (q : xeqn) : bool :=
    rows, declared array shapes, generate() succeeded?, equations with their observed residuals *)
 Definition xcase := (table * ftable * point * list (positive * list (list Qc)) * list (positive * mshape)
                      * bool * list (xeqn * list obs))%type.
-Definition check_xcase (c : xcase) : bool :=
+Definition check_xcase (seq_if : bool) (c : xcase) : bool :=
   match c with
   | (T, ft, p, mats, decl, impl_ok, qs) =>
       let rho := cenv_of p in
@@ -30,8 +30,8 @@ Definition check_xcase (c : xcase) : bool :=
         forallb (fun qo =>
                    match fst qo with
                    | XBase q => check_eqn F T rho q (snd qo)
-                   | XCall q => check_call F T rho q (snd qo)
+                   | XCall q => check_call F T seq_if rho q (snd qo)
                    | XArr l r => check_aeq F T decl (mat_of mats) rho l r (snd qo)
                    end) qs
-      else existsb (fun qo => xfails T (alookup_sh decl) (fst qo)) qs
+      else existsb (fun qo => xfails T seq_if (alookup_sh decl) (fst qo)) qs
   end.
